@@ -72,6 +72,12 @@ CSS_VALUES = ["color: red", "background: url(javascript:alert(1))", "background:
               "text-decoration: underline; display: none", "background: url&#40;x&#41;", "background: url&lpar;x&rpar;"]
 
 URI_TARGETS = None
+# Which attributes are URI-valued is a fact about HTML/SVG, not a choice of the code under test: pinned here (the 13 the
+# pinned tree declares), so that dropping one from the library's own table is seen.  A caller-supplied attr_val_is_uri is
+# the caller's declaration and replaces it.
+PINNED_URI_ATTRS = frozenset([(canon.XLINK, "href"), (canon.XML, "base"), (None, "action"), (None, "background"), (None, "cite"),
+                              (None, "datasrc"), (None, "dynsrc"), (None, "href"), (None, "longdesc"), (None, "lowsrc"), (None, "ping"),
+                              (None, "poster"), (None, "src")])
 
 
 def uri_targets():
@@ -80,7 +86,7 @@ def uri_targets():
     if URI_TARGETS is None:
         from html5lib.filters import sanitizer
         t = []
-        for ns, name in sorted(sanitizer.attr_val_is_uri, key=repr):
+        for ns, name in sorted(PINNED_URI_ATTRS | frozenset(sanitizer.attr_val_is_uri), key=repr):
             if ns is None:
                 el = {"href": "a", "src": "img", "action": "form", "cite": "blockquote", "poster": "video", "background": "table",
                       "longdesc": "img", "dynsrc": "img", "lowsrc": "img", "datasrc": "table", "ping": "a"}.get(name, "a")
@@ -160,6 +166,8 @@ def judge(ctx, case, tokens, kw, label):
     L = {n: kw.get(n, getattr(S, n)) for n in ("allowed_elements", "allowed_attributes", "allowed_css_properties",
                                                 "allowed_css_keywords", "allowed_svg_properties", "allowed_protocols",
                                                 "allowed_content_types", "attr_val_is_uri")}
+    if "attr_val_is_uri" not in kw:
+        L["attr_val_is_uri"] = PINNED_URI_ATTRS | frozenset(S.attr_val_is_uri)
     inp = streams.copy_tokens(tokens)
     with warnings.catch_warnings():
         warnings.simplefilter("ignore")
